@@ -6,6 +6,24 @@ CHECKS = {
  'C16': dict(technique='Coq proof over an IR regenerated from cli/main.py (cli2v translator), for every library behaviour + subprocess correspondence',
              text='C16_test, C16_set, C16_rm, C16_unknown, C16_terminate hold for every library behaviour, document, path and value over the match arms regenerated from cli/main.py on every run and interpreted by Cli/CliIR.v; the real CLI (both channels) is compared with the interpreted arms inside Coq and the property is stated directly against the observations.',
              note='trusted: Coq kernel, cli2v translator, the Python facts written into the IR interpreter (print, uncaught exception => exit 1, evaluation order); argparse and the two input channels are observed, not modelled (finding F-28 lives there)', ref='6 C16'),
+ 'C08': dict(technique='Coq proof by invariant over operation scripts on a hand-written heap model of attribute-set edits + in-Coq correspondence after every call',
+             text='C08_rm_atomic, C08_set_atomic, C08_parsed (every parsed document, every script, every refused operation: the whole state — heap, values and attrpath_order lists, flags — is identical afterwards), C08_history (a script equals its successful sub-script) and C08_error_class are proved over the failure-with-state model in which a failing call returns the state as mutated so far; the model is compared with set_value/remove_value after EVERY call (also refused ones) inside Coq; scoped paths, wrappers and hidden object state are searched with object-graph snapshots and replay-without-the-failed-operations.',
+             note='trusted: Coq kernel, the hand-written edit heap model (identifier paths, no scope selectors, atom values); modelled not verified: cli/manipulations.py, expressions/set.py; finding F-08 (ResolutionError escapes) listed', ref='6 C08'),
+ 'C04': dict(technique='Coq frame theorems on the edit heap model (leaf overwrite, root insertion in every reachable state) + in-Coq correspondence + frame search',
+             text='C04_leaf (overwriting an existing leaf: the printed document is the old one with exactly that leaf text replaced, for every document and path) and C04_fresh_root_reachable (a fresh key appends exactly one entry, everything else prints as before, in every state reachable from a parsed document by any script) are proved on the model; removal, nested insertion and the byte-level text are covered by the correspondence (printed structure after every op) and the frame search (other bindings, their order and comments unchanged).',
+             note='partial: theorems are about the printed structure (names, order, nesting, value texts) of the heap model, not yet about bytes; rm and nested insertion are correspondence/search only', ref='6 C04'),
+ 'C05': dict(technique='Coq read-back and insertion theorems on the edit heap model, refutation witness for lost edits (F-23) + in-Coq correspondence + attribute-tree search',
+             text='C05_leaf_readback, C05_new_binding_last proved for every parsed document; C05_success_visible_full_refuted exhibits finding F-23 inside the faithful model; the attribute tree decoded independently from the emitted text is compared with the requested update after every edit, refusals are judged against the documented reasons.',
+             note='partial: refinement to a finite-map spec is proved only for leaf overwrite and root insertion; findings F-06 F-07 F-08 F-23 listed', ref='6 C05'),
+ 'C19': dict(technique='Coq state-equality theorem for repeated edits on the heap model + law search on canonical documents',
+             text='C19_repeat_leaf (the same set twice = once, as equality of states) proved; set/rm inverse, rm/set restoration and commutation are checked as laws on generated canonical documents with wrappers and let layers (search, labelled test) and through the in-Coq edit correspondence.',
+             note='partial: only repeatability is a theorem; the other three laws are tests', ref='6 C19'),
+ 'C14': dict(technique='Coq dictionary laws on the heap model + refutation witness of text/mapping coherence (F-17) + in-Coq mapping correspondence',
+             text='C14_get_after_set, C14_get_other_after_set proved for every well-formed state, key and value; C14_coherent_full_refuted exhibits finding F-17 in the faithful model; getitem/set_setitem/set_delitem are compared with src[k] operations after every call inside Coq (attrpath documents included, the model reproduces the stale text); nested sets and the scope mapping are searched.',
+             note='partial: delete law and nested/scope mappings are correspondence/search only; F-17 listed', ref='6 C14'),
+ 'C09': dict(technique='Coq proof over the regenerated selector parser (py2v) and the layer-index arithmetic + scoped-edit search against let chains decoded from the output',
+             text='C09_selector_syntax (k leading @ = depth k, for all k and paths, over _split_scope_npath regenerated from source) and C09_pick_innermost_first (layers[-k] is the k-th layer from the innermost) are proved; creation, refusal of missing layers, pruning and the frame are checked on sequences of scoped set/rm over 0-3 layers (duplicated layers included) by decoding the let chain from the emitted text.',
+             note='partial: collect/write-back of layers is search only; wrappers between let and set are findings F-06/F-27', ref='6 C09'),
  'C17': dict(technique='Coq proof over a hand-written path/file-system model (abstract directory tree) + in-Coq correspondence on generated layouts',
              text='C17_relative, C17_cwd_independent, C17_absolute, C17_chain (any number of hops, by induction) and C17_errors hold for every directory tree without symlinks, every working directory and every spelling of the entry path; the model (pathlib path algebra, NixPath.resolved_path, physical lookup) is tied to the code by running parse_file(entry)[next]...[id] on generated layouts under varying cwd/spelling and comparing with the model inside Coq, and the property is also stated directly with os.path.realpath.',
              note='trusted: Coq kernel, the hand-written model of pathlib/OS lookup (Small/PathRes.v, PathFS.v); modelled, not verified: NixPath.resolved_path, Import._follow_import, parse_file; symlinks and case-insensitive file systems are outside the model', ref='6 C17'),
